@@ -7,9 +7,9 @@ cd "$(dirname "$0")/.."
 declare -A PIDS
 PIDS[w1]="C03 C04 C05 C06 C09 C15"
 PIDS[w2]="C01 C02 C07 C12 C13 C14 C16 C17"
-PIDS[w3]="C03 C06 C14 C17 C18"
+PIDS[w3]="C03 C06 C14 C17 C18 C04"
 PIDS[w4]="C05 C06 C08 C09 C16 C18"
 PIDS[w5]="C10 C11 C13 C19"
-PIDS[w6]="C09 C15 C20 C06 C12 C03"
+PIDS[w6]="C09 C15 C20 C06 C12 C03 C19 C17 C04"
 for d in refactors/*; do id=$(basename $d); w=${id%%-*}; echo "$d $id ${PIDS[$w]}"; done | \
   xargs -P $J -L 1 bash -c 'tools/refactor_eval.sh $0 $1 ${@:2} | tee $0/result.txt'
